@@ -1,12 +1,13 @@
 package harness
 
 import (
-	"go.uber.org/zap"
 	"context"
 	"encoding/json"
 	"fmt"
+	"go.uber.org/zap"
 	"math/rand"
 	"os"
+	"reflect"
 	"runtime"
 	"sort"
 	"strings"
@@ -15,6 +16,7 @@ import (
 	"testing"
 	"testing/synctest"
 	"time"
+	"unsafe"
 
 	"github.com/ali-assar/NATS-Leader-Election/leader"
 	"github.com/nats-io/nats.go"
@@ -22,34 +24,35 @@ import (
 )
 
 type InstSpec struct {
-	ID       int           `json:"id"` // 1..N
-	Group    string        `json:"group"`
-	TTL      time.Duration `json:"ttl"`
-	H        time.Duration `json:"h"`
-	Val      time.Duration `json:"val"`
-	Grace    time.Duration `json:"grace"`
-	MaxFail  int           `json:"maxfail"`
-	Prio     int           `json:"prio"`
-	Takeover bool          `json:"takeover"`
-	Health   []int         `json:"health,omitempty"` // per heartbeat tick: 1 healthy, 0 unhealthy, 2 healthy after 50ms; nil = no checker; exhausted = healthy
-	HasHealth bool         `json:"hashealth,omitempty"`
-	ConnMon  bool          `json:"connmon,omitempty"`
-	Promote  string        `json:"promote,omitempty"` // "" return at once | "block" until the context is done | "none" no callbacks registered
+	ID          int           `json:"id"` // 1..N
+	Group       string        `json:"group"`
+	TTL         time.Duration `json:"ttl"`
+	H           time.Duration `json:"h"`
+	Val         time.Duration `json:"val"`
+	Grace       time.Duration `json:"grace"`
+	MaxFail     int           `json:"maxfail"`
+	Prio        int           `json:"prio"`
+	Takeover    bool          `json:"takeover"`
+	Health      []int         `json:"health,omitempty"` // per heartbeat tick: 1 healthy, 0 unhealthy, 2 healthy after 50ms; nil = no checker; exhausted = healthy
+	HasHealth   bool          `json:"hashealth,omitempty"`
+	ConnMon     bool          `json:"connmon,omitempty"`
+	Promote     string        `json:"promote,omitempty"` // "" return at once | "block" until the context is done | "none" no callbacks registered
 	DemoteSleep time.Duration `json:"demotesleep,omitempty"`
 }
 
 type Step struct {
-	At    time.Duration `json:"at"`
-	Kind  string        `json:"kind"`
-	Inst  int           `json:"inst,omitempty"`
-	Bytes string        `json:"bytes,omitempty"` // extput
-	Key   string        `json:"key,omitempty"`
-	Del   bool          `json:"del,omitempty"`   // stopctx DeleteKey
-	Wait  bool          `json:"wait,omitempty"`  // stopctx WaitForDemote
-	Timeout time.Duration `json:"timeout,omitempty"`
+	At         time.Duration `json:"at"`
+	Kind       string        `json:"kind"`
+	Inst       int           `json:"inst,omitempty"`
+	Bytes      string        `json:"bytes,omitempty"` // extput
+	Key        string        `json:"key,omitempty"`
+	Del        bool          `json:"del,omitempty"`  // stopctx DeleteKey
+	Wait       bool          `json:"wait,omitempty"` // stopctx WaitForDemote
+	Timeout    time.Duration `json:"timeout,omitempty"`
 	CtxTimeout time.Duration `json:"ctxtimeout,omitempty"`
-	Cancelled bool           `json:"cancelled,omitempty"` // validate / validate-or-demote: the caller's context (no deadline) is already cancelled
-	N     int           `json:"n,omitempty"`
+	Cancelled  bool          `json:"cancelled,omitempty"` // validate / validate-or-demote: the caller's context (no deadline) is already cancelled
+	N          int           `json:"n,omitempty"`
+	Then       string        `json:"then,omitempty"` // API calls: the kind of a second call the same goroutine makes as soon as this one has returned ("start" after a stop)
 }
 
 // Trigger fires a step when the nth store operation of an instance reaches a phase
@@ -63,37 +66,38 @@ type Trigger struct {
 }
 
 type LatSpec struct {
-	Min, Max   time.Duration
-	FaultProb  float64 // probability that an operation gets a fault
-	Faults     []string // kinds drawn from
-	From, To   time.Duration // faults only inside this window (To == 0: always)
+	Min, Max  time.Duration
+	FaultProb float64       // probability that an operation gets a fault
+	Faults    []string      // kinds drawn from
+	From, To  time.Duration // faults only inside this window (To == 0: always)
 }
 
 type Scenario struct {
-	Name     string            `json:"name"`
-	Seed     int64             `json:"seed"`
-	StoreTTL time.Duration     `json:"storettl"`
-	Insts    []InstSpec        `json:"insts"`
-	Steps    []Step            `json:"steps"`
-	Lat      map[int]LatSpec   `json:"lat"`   // per instance (0 = default)
-	Plans    map[string]OpPlan `json:"plans"` // "inst:nth" -> explicit plan
-	Triggers []Trigger         `json:"triggers,omitempty"`
-	WatchMin time.Duration     `json:"watchmin"`
-	WatchMax time.Duration     `json:"watchmax"`
-	WatchDrop float64          `json:"watchdrop"`
-	End      time.Duration     `json:"end"`
-	Sample   time.Duration     `json:"sample"` // status sampling period (0 = only after steps)
+	Name      string            `json:"name"`
+	Seed      int64             `json:"seed"`
+	StoreTTL  time.Duration     `json:"storettl"`
+	Insts     []InstSpec        `json:"insts"`
+	Steps     []Step            `json:"steps"`
+	Lat       map[int]LatSpec   `json:"lat"`   // per instance (0 = default)
+	Plans     map[string]OpPlan `json:"plans"` // "inst:nth" -> explicit plan
+	Triggers  []Trigger         `json:"triggers,omitempty"`
+	WatchMin  time.Duration     `json:"watchmin"`
+	WatchMax  time.Duration     `json:"watchmax"`
+	WatchDrop float64           `json:"watchdrop"`
+	End       time.Duration     `json:"end"`
+	Sample    time.Duration     `json:"sample"` // status sampling period (0 = only after steps)
 	// what the generator promises (evaluated again by the monitors where possible)
-	Responsive bool `json:"responsive"` // every operation answered within H/2, no faults
-	NoOutside  bool `json:"nooutside"`  // no ext writes
-	NoPreempt  bool `json:"nopreempt"`  // no instance has takeover enabled
-	FaultFree  bool `json:"faultfree"`  // all of the above + healthy + no connection events + no watch failures
+	Responsive bool          `json:"responsive"`         // every operation answered within H/2, no faults
+	NoOutside  bool          `json:"nooutside"`          // no ext writes
+	NoPreempt  bool          `json:"nopreempt"`          // no instance has takeover enabled
+	FaultFree  bool          `json:"faultfree"`          // all of the above + healthy + no connection events + no watch failures
 	MockErrs   bool          `json:"mockerrs,omitempty"` // the store words its refusals like the package's mock
 	BareSeq    bool          `json:"bareseq,omitempty"`  // a refused Create is the server's bare "wrong last sequence" error
 	YieldLog   int           `json:"yieldlog,omitempty"` // k > 0: the configured Logger yields the processor on every k-th record (a log sink that takes a moment)
-	MaxLat     time.Duration `json:"maxlat"`    // promised bound on the latency of every answered operation (0 = no promise)
-	FaultsEnd  time.Duration `json:"faultsend"` // no injected fault, partition or lost watch event after this instant (0 = there are none at all)
-	ConnOnly   bool `json:"connonly"`   // the only disturbances are connection notifications (store responsive, no outside writer, healthy)
+	SlowLog    time.Duration `json:"slowlog,omitempty"`  // > 0: the configured Logger takes up to this long over a warning or error record (a synchronous sink), when no mutex of the election is held
+	MaxLat     time.Duration `json:"maxlat"`             // promised bound on the latency of every answered operation (0 = no promise)
+	FaultsEnd  time.Duration `json:"faultsend"`          // no injected fault, partition or lost watch event after this instant (0 = there are none at all)
+	ConnOnly   bool          `json:"connonly"`           // the only disturbances are connection notifications (store responsive, no outside writer, healthy)
 }
 
 func (sc *Scenario) JSON() string { b, _ := json.Marshal(sc); return string(b) }
@@ -114,10 +118,13 @@ func mix(a ...int64) int64 {
 // ---- per-instance runtime ------------------------------------------------------------------
 
 type instRT struct {
-	spec   InstSpec
-	el     leader.Election
-	tr     *Trace
-	conn   *nats.Conn
+	spec InstSpec
+	el   leader.Election
+	tr   *Trace
+	conn *nats.Conn
+	// connection notifications are delivered the way the NATS client delivers them: one dispatcher goroutine per
+	// connection, one callback at a time, in the order the events occurred
+	connQ  chan func()
 	ctxSeq int32
 	tick   int32
 	mu     sync.Mutex
@@ -125,10 +132,14 @@ type instRT struct {
 	startCancel context.CancelFunc
 	// flag-phase triggers: called from inside the library's critical section (the metrics callback), with the
 	// ordinal of this raise / lowering of the flag
+	// the library's own Prometheus implementation, fed with every call the election makes next to the recording one
+	prom     leader.Metrics
 	onHook   func(phase string, nth int)
 	raises   int32
 	lowers   int32
 	observes int32
+	// stop calls of the scenario in progress on this instance
+	stopsRunning int32
 }
 
 // appCtx is the context an application passes to Start: it ends when the application says so, either as a cancellation or
@@ -140,7 +151,7 @@ type appCtx struct {
 	err  error
 }
 
-func newAppCtx() *appCtx { return &appCtx{Context: context.Background(), done: make(chan struct{})} }
+func newAppCtx() *appCtx                { return &appCtx{Context: context.Background(), done: make(chan struct{})} }
 func (c *appCtx) Done() <-chan struct{} { return c.done }
 func (c *appCtx) Err() error {
 	c.mu.Lock()
@@ -162,18 +173,91 @@ func (c *appCtx) end(err error) {
 type yieldLogger struct {
 	every int64
 	n     atomic.Int64
+	// a sink that writes warnings and errors synchronously: the call takes a few milliseconds.  Under synctest a goroutine
+	// that sleeps while it holds a mutex others are waiting for stalls virtual time, so the sink takes its time only when
+	// every mutex of the election is free at that moment (the library logs inside its critical sections, too).
+	slow  time.Duration
+	locks func() []sync.Locker
+	// (only while the instance neither leads nor is being stopped: every bound on how fast a leader reacts, or a stop
+	// call returns, is stated for code that takes no time; a sink that delays them by its own latency only shifts the bounds)
+	leads func() bool
 }
 
-func (l *yieldLogger) rec() {
-	if l.n.Add(1)%l.every == 0 {
+func (l *yieldLogger) rec(serious bool) {
+	k := l.n.Add(1)
+	if l.every > 0 && k%l.every == 0 {
 		runtime.Gosched()
 	}
+	if serious && l.slow > 0 && l.locks != nil && (l.leads == nil || !l.leads()) {
+		var held []sync.Locker
+		free := true
+		for _, m := range l.locks() {
+			if t, ok := m.(interface{ TryLock() bool }); ok && t.TryLock() {
+				held = append(held, m)
+			} else {
+				free = false
+				break
+			}
+		}
+		for _, m := range held {
+			m.Unlock()
+		}
+		if free {
+			time.Sleep(time.Millisecond + time.Duration(uint64(mix(k, 31))%uint64(l.slow)))
+		}
+	}
 }
-func (l *yieldLogger) Debug(string, ...zap.Field) { l.rec() }
-func (l *yieldLogger) Info(string, ...zap.Field)  { l.rec() }
-func (l *yieldLogger) Warn(string, ...zap.Field)  { l.rec() }
-func (l *yieldLogger) Error(string, ...zap.Field) { l.rec() }
-func (l *yieldLogger) Fatal(string, ...zap.Field) { l.rec() }
+func (l *yieldLogger) Debug(string, ...zap.Field) { l.rec(false) }
+func (l *yieldLogger) Info(string, ...zap.Field)  { l.rec(false) }
+func (l *yieldLogger) Warn(string, ...zap.Field)  { l.rec(true) }
+func (l *yieldLogger) Error(string, ...zap.Field) { l.rec(true) }
+func (l *yieldLogger) Fatal(string, ...zap.Field) { l.rec(false) }
+
+// libraryMutexes finds the mutexes of an election object (and of the library's own objects it points to) by reflection.
+func libraryMutexes(root any) []sync.Locker {
+	var out []sync.Locker
+	seen := map[uintptr]bool{}
+	var walk func(v reflect.Value, depth int)
+	walk = func(v reflect.Value, depth int) {
+		if depth > 4 {
+			return
+		}
+		switch v.Kind() {
+		case reflect.Pointer, reflect.Interface:
+			if v.IsNil() {
+				return
+			}
+			if v.Kind() == reflect.Pointer {
+				if seen[v.Pointer()] {
+					return
+				}
+				seen[v.Pointer()] = true
+			}
+			walk(v.Elem(), depth+1)
+		case reflect.Struct:
+			t := v.Type()
+			if !v.CanAddr() {
+				return
+			}
+			switch t {
+			case reflect.TypeOf(sync.Mutex{}):
+				out = append(out, (*sync.Mutex)(unsafe.Pointer(v.UnsafeAddr())))
+				return
+			case reflect.TypeOf(sync.RWMutex{}):
+				out = append(out, (*sync.RWMutex)(unsafe.Pointer(v.UnsafeAddr())))
+				return
+			}
+			if !strings.Contains(t.PkgPath(), "NATS-Leader-Election/leader") {
+				return
+			}
+			for i := 0; i < v.NumField(); i++ {
+				walk(v.Field(i), depth+1)
+			}
+		}
+	}
+	walk(reflect.ValueOf(root), 0)
+	return out
+}
 
 type recMetrics struct{ rt *instRT }
 
@@ -195,7 +279,22 @@ func stateNum(s string) int {
 	return 9
 }
 
+// tee passes a call on to the library's Prometheus implementation; a panic there (a label set the collector does not accept)
+// would kill the process in production: it is recorded instead.
+func (m recMetrics) tee(method string, f func(leader.Metrics)) {
+	if m.rt.prom == nil {
+		return
+	}
+	defer func() {
+		if r := recover(); r != nil {
+			m.rt.tr.logf("mpanic %d %s", m.rt.spec.ID, method)
+		}
+	}()
+	f(m.rt.prom)
+}
+
 func (m recMetrics) SetIsLeader(v float64, l prometheus.Labels) {
+	m.tee("SetIsLeader", func(p leader.Metrics) { p.SetIsLeader(v, l) })
 	e := m.rt.el
 	b := 0
 	if v != 0 {
@@ -218,16 +317,29 @@ func (m recMetrics) SetIsLeader(v float64, l prometheus.Labels) {
 		}
 	}
 }
-func (m recMetrics) SetConnectionStatus(float64, prometheus.Labels) {}
+func (m recMetrics) SetConnectionStatus(v float64, l prometheus.Labels) {
+	m.tee("SetConnectionStatus", func(p leader.Metrics) { p.SetConnectionStatus(v, l) })
+}
 func (m recMetrics) IncTransitions(l prometheus.Labels) {
+	m.tee("IncTransitions", func(p leader.Metrics) { p.IncTransitions(l) })
 	m.rt.tr.logf("trans %d %d %d", m.rt.spec.ID, stateNum(l["from_state"]), stateNum(l["to_state"]))
 }
-func (m recMetrics) IncFailures(prometheus.Labels)                             {}
-func (m recMetrics) IncAcquireAttempts(prometheus.Labels)                      {}
-func (m recMetrics) IncTokenValidationFailures(prometheus.Labels)              {}
-func (m recMetrics) ObserveHeartbeatDuration(time.Duration, prometheus.Labels) {}
+func (m recMetrics) IncFailures(l prometheus.Labels) {
+	m.tee("IncFailures", func(p leader.Metrics) { p.IncFailures(l) })
+}
+func (m recMetrics) IncAcquireAttempts(l prometheus.Labels) {
+	m.tee("IncAcquireAttempts", func(p leader.Metrics) { p.IncAcquireAttempts(l) })
+}
+func (m recMetrics) IncTokenValidationFailures(l prometheus.Labels) {
+	m.tee("IncTokenValidationFailures", func(p leader.Metrics) { p.IncTokenValidationFailures(l) })
+}
+func (m recMetrics) ObserveHeartbeatDuration(d time.Duration, l prometheus.Labels) {
+	m.tee("ObserveHeartbeatDuration", func(p leader.Metrics) { p.ObserveHeartbeatDuration(d, l) })
+}
+
 // ObserveLeaderDuration is called when a term ends, inside the critical section and before the flag is lowered.
-func (m recMetrics) ObserveLeaderDuration(time.Duration, prometheus.Labels) {
+func (m recMetrics) ObserveLeaderDuration(d time.Duration, l prometheus.Labels) {
+	m.tee("ObserveLeaderDuration", func(p leader.Metrics) { p.ObserveLeaderDuration(d, l) })
 	m.rt.tr.logf("observe %d", m.rt.spec.ID)
 	if f := m.rt.onHook; f != nil {
 		f("observe", int(atomic.AddInt32(&m.rt.observes, 1)))
@@ -268,10 +380,10 @@ func (h scriptedHealth) Check(ctx context.Context) bool {
 // ---- running one scenario ------------------------------------------------------------------
 
 type ScenarioResult struct {
-	Trace   []string
-	Hung    bool
-	Panic   string
-	Gor     int
+	Trace []string
+	Hung  bool
+	Panic string
+	Gor   int
 }
 
 var watchdogSeconds = 60
@@ -360,12 +472,16 @@ func runScenario(t *testing.T, sc *Scenario) (res *ScenarioResult) {
 			d = d/2*2 + 1
 			return d, sc.WatchDrop > 0 && r.Float64() < sc.WatchDrop
 		}
+		var wg sync.WaitGroup
 		rts := map[int]*instRT{}
 		for _, is := range sc.Insts {
 			tr.registerID(fmt.Sprintf("i%d", is.ID), is.ID)
 		}
+		// one registry per scenario, as one process would have: every election reports into the same collectors
+		reg := prometheus.NewRegistry()
+		prom := leader.NewPrometheusMetrics(reg)
 		for _, is := range sc.Insts {
-			rt := &instRT{spec: is, tr: tr}
+			rt := &instRT{spec: is, tr: tr, prom: prom}
 			b2i := func(b bool) int {
 				if b {
 					return 1
@@ -380,13 +496,23 @@ func runScenario(t *testing.T, sc *Scenario) (res *ScenarioResult) {
 			if is.HasHealth {
 				cfg.HealthChecker = scriptedHealth{rt}
 			}
-			if sc.YieldLog > 0 {
-				cfg.Logger = &yieldLogger{every: int64(sc.YieldLog)}
+			var ylog *yieldLogger
+			if sc.YieldLog > 0 || sc.SlowLog > 0 {
+				ylog = &yieldLogger{every: int64(sc.YieldLog), slow: sc.SlowLog}
+				cfg.Logger = ylog
 			}
 			var prov leader.JetStreamProvider
 			cl := store.client(is.ID)
 			if is.ConnMon {
 				rt.conn = &nats.Conn{}
+				rt.connQ = make(chan func(), 256)
+				wg.Add(1)
+				go func(q chan func()) {
+					defer wg.Done()
+					for f := range q {
+						f()
+					}
+				}(rt.connQ)
 				prov = &refConnProvider{refProvider{cl, rt.conn}}
 			} else {
 				prov = &refProvider{c: cl}
@@ -397,6 +523,13 @@ func runScenario(t *testing.T, sc *Scenario) (res *ScenarioResult) {
 				continue
 			}
 			rt.el = el
+			if ylog != nil && ylog.slow > 0 {
+				ms := libraryMutexes(el)
+				if len(ms) > 0 {
+					ylog.locks = func() []sync.Locker { return ms }
+					ylog.leads = func() bool { return el.IsLeader() || atomic.LoadInt32(&rt.stopsRunning) > 0 }
+				}
+			}
 			if is.Promote != "none" {
 				registerCallbacks(rt)
 			}
@@ -410,7 +543,6 @@ func runScenario(t *testing.T, sc *Scenario) (res *ScenarioResult) {
 		}
 		tr.headerf("hyp %d %d %d %d %d %d %d", b2i(sc.Responsive), b2i(sc.NoOutside), b2i(sc.NoPreempt), b2i(sc.FaultFree), b2i(sc.ConnOnly), int64(sc.MaxLat), int64(sc.FaultsEnd))
 		var apiSeq int32
-		var wg sync.WaitGroup
 		steps := append([]Step(nil), sc.Steps...)
 		sort.SliceStable(steps, func(i, j int) bool { return steps[i].At < steps[j].At })
 		sampleAll := func() {
@@ -431,6 +563,9 @@ func runScenario(t *testing.T, sc *Scenario) (res *ScenarioResult) {
 			}
 		}
 		store.trigger = func(inst, nth int, phase string) {
+			if tr.over.Load() {
+				return // (the scenario has ended: the tear-down's own stop calls trigger nothing)
+			}
 			for _, tg := range sc.Triggers {
 				if tg.Inst == inst && tg.Nth == nth && tg.Phase == phase {
 					tg := tg
@@ -455,6 +590,9 @@ func runScenario(t *testing.T, sc *Scenario) (res *ScenarioResult) {
 			}
 			id := is.ID
 			rt.onHook = func(phase string, nth int) {
+				if tr.over.Load() {
+					return
+				}
 				fired := false
 				for _, tg := range sc.Triggers {
 					if tg.Inst == id && tg.Nth == nth && tg.Phase == phase {
@@ -470,7 +608,7 @@ func runScenario(t *testing.T, sc *Scenario) (res *ScenarioResult) {
 			}
 		}
 		nextSample := sc.Sample
-		for _, st := range steps {
+		for si, st := range steps {
 			for sc.Sample > 0 && nextSample < st.At {
 				time.Sleep(nextSample - time.Duration(tr.now()))
 				sampleAll()
@@ -480,6 +618,9 @@ func runScenario(t *testing.T, sc *Scenario) (res *ScenarioResult) {
 				time.Sleep(d)
 			}
 			execStep(tr, store, rts, st, &apiSeq, &wg)
+			if si+1 < len(steps) && steps[si+1].At == st.At && st.Kind != "start" {
+				continue // (steps of the same instant are issued back to back: no quiescent point in between)
+			}
 			sampleAll()
 		}
 		for sc.Sample > 0 && nextSample < sc.End {
@@ -491,7 +632,9 @@ func runScenario(t *testing.T, sc *Scenario) (res *ScenarioResult) {
 			time.Sleep(d)
 		}
 		sampleAll()
+		scrape(tr, reg, sc)
 		tr.logf("end")
+		tr.over.Store(true)
 		// tear down: stop everything so that the bubble can exit
 		for _, is := range sc.Insts {
 			if rt := rts[is.ID]; rt != nil {
@@ -502,6 +645,11 @@ func runScenario(t *testing.T, sc *Scenario) (res *ScenarioResult) {
 			}
 		}
 		close(store.done)
+		for _, rt := range rts {
+			if rt != nil && rt.connQ != nil {
+				close(rt.connQ)
+			}
+		}
 		wg.Wait()
 		// keep the root goroutine alive while in-flight operations return and background goroutines wind down
 		// (virtual time stops once the root goroutine has exited)
@@ -522,6 +670,41 @@ func runScenario(t *testing.T, sc *Scenario) (res *ScenarioResult) {
 	})
 	close(doneWall)
 	return res
+}
+
+// scrape reads the real registry the way a Prometheus server would: the is-leader gauge of every instance and the sum of its
+// transition counters.
+func scrape(tr *Trace, reg *prometheus.Registry, sc *Scenario) {
+	if reg == nil {
+		return
+	}
+	fams, err := reg.Gather()
+	if err != nil {
+		tr.logf("mpanic 0 Gather")
+		return
+	}
+	for _, is := range sc.Insts {
+		gauge, trans := -1, 0
+		for _, f := range fams {
+			for _, mt := range f.GetMetric() {
+				lab := map[string]string{}
+				for _, lp := range mt.GetLabel() {
+					lab[lp.GetName()] = lp.GetValue()
+				}
+				if lab["instance_id"] != fmt.Sprintf("i%d", is.ID) || lab["role"] != is.Group || lab["bucket"] != "b" {
+					continue
+				}
+				switch f.GetName() {
+				case "election_is_leader":
+					gauge = int(mt.GetGauge().GetValue())
+				case "election_transitions_total":
+					trans += int(mt.GetCounter().GetValue())
+				}
+			}
+		}
+		tr.logf("promgauge %d %d", is.ID, gauge)
+		tr.logf("promtrans %d %d", is.ID, trans)
+	}
 }
 
 func tail(xs []string, n int) []string {
@@ -619,6 +802,10 @@ func execStep(tr *Trace, store *RefStore, rts map[int]*instRT, st Step, apiSeq *
 			}()
 			r := f()
 			tr.logf("apiret %d %d %s", n, st.Inst, r)
+			if st.Then != "" && !tr.over.Load() {
+				// the application goes on at once: the next call is made by the goroutine the first one returned to
+				execStep(tr, store, rts, Step{At: st.At, Kind: st.Then, Inst: st.Inst}, apiSeq, wg)
+			}
 		}()
 	}
 	errs := func(err error) string {
@@ -717,7 +904,11 @@ func execStep(tr *Trace, store *RefStore, rts map[int]*instRT, st Step, apiSeq *
 		if rt == nil {
 			return
 		}
-		api("stop", func() string { return errs(rt.el.Stop()) })
+		api("stop", func() string {
+			atomic.AddInt32(&rt.stopsRunning, 1)
+			defer atomic.AddInt32(&rt.stopsRunning, -1)
+			return errs(rt.el.Stop())
+		})
 	case "stopctx":
 		if rt == nil {
 			return
@@ -735,6 +926,8 @@ func execStep(tr *Trace, store *RefStore, rts map[int]*instRT, st Step, apiSeq *
 				ctx, cancel = context.WithTimeout(ctx, st.CtxTimeout)
 				defer cancel()
 			}
+			atomic.AddInt32(&rt.stopsRunning, 1)
+			defer atomic.AddInt32(&rt.stopsRunning, -1)
 			return errs(rt.el.StopWithContext(ctx, leader.StopOptions{DeleteKey: st.Del, WaitForDemote: st.Wait, Timeout: st.Timeout}))
 		})
 	case "validate":
@@ -829,10 +1022,10 @@ func execStep(tr *Trace, store *RefStore, rts map[int]*instRT, st Step, apiSeq *
 		if rt == nil || rt.conn == nil {
 			return
 		}
-		tr.logf("conn %d %s", st.Inst, st.Kind)
-		wg.Add(1)
-		go func() {
-			defer wg.Done()
+		defer func() { recover() }() // (a notification after the tear-down has closed the queue)
+		rt.connQ <- func() {
+			// (recorded when the dispatcher gets to it: a callback that takes its time holds up the ones behind it)
+			tr.logf("conn %d %s", st.Inst, st.Kind)
 			defer func() {
 				if r := recover(); r != nil {
 					tr.logf("panic %d conn", st.Inst)
@@ -854,6 +1047,6 @@ func execStep(tr *Trace, store *RefStore, rts map[int]*instRT, st Step, apiSeq *
 					cb(rt.conn)
 				}
 			}
-		}()
+		}
 	}
 }
